@@ -39,16 +39,28 @@ def gen_case(rng, i, tier):
             main += "{{/mk}}"
         if main.endswith("}}") and "{{#> p0 " in main[main.rfind("{{#"):]:
             main += "{{/p0}}"
-    ops = [{"op": "reg_string", "reg": 0, "name": "p0", "src": p0},
-           {"op": "reg_string", "reg": 0, "name": "main", "src": main},
-           {"op": "reg_template", "reg": 0, "name": "pre", "src": main, "tname": "main"}]
+    devfile = rng.chance(0.25)
+    if devfile:
+        # dev mode: the partial comes from a file that changes (or disappears) after registration – every entry point
+        # must see the file as it is at render time
+        p0_old = TG(rng.fork("pold"), data, helpers, [], opt={"inline": False, "partial_block": False}).partial_body(1)
+        ops = [{"op": "set_dev", "reg": 0, "v": True},
+               {"op": "write_file", "file": "f1", "content": p0_old},
+               {"op": "reg_file", "reg": 0, "name": "p0", "file": "f1"},
+               {"op": "reg_string", "reg": 0, "name": "main", "src": main},
+               {"op": "reg_template", "reg": 0, "name": "pre", "src": main, "tname": "main"},
+               ({"op": "write_file", "file": "f1", "content": p0} if rng.chance(0.8) else {"op": "delete_file", "file": "f1"})]
+    else:
+        ops = [{"op": "reg_string", "reg": 0, "name": "p0", "src": p0},
+               {"op": "reg_string", "reg": 0, "name": "main", "src": main},
+               {"op": "reg_template", "reg": 0, "name": "pre", "src": main, "tname": "main"}]
     d = enc(data)
     calls = []
     for api in NAMED:
         calls.append({"op": "render", "reg": 0, "api": api, "name": "main", "data": d})
     for api in UNNAMED:
         calls.append({"op": "render", "reg": 0, "api": api, "src": main, "data": d})
-    if not cfg["prevent_indent"]:
+    if not cfg["prevent_indent"] and not devfile:
         # Template::compile_with_name has no prevent_indent option: "precompiled with the same options" exists only then
         calls.append({"op": "render", "reg": 0, "api": "render", "name": "pre", "data": d})
     batch = list(calls)
@@ -114,10 +126,17 @@ def oracle(case, meta, impl):
     return v
 
 
+def first_render(case, impl):
+    for op, r in zip(case["ops"], impl["results"]):
+        if op["op"] == "render":
+            return r
+    return {}
+
+
 def nontrivial_key(case, meta, impl):
     if impl.get("r") != "session":
         return None
-    r = impl["results"][3]
+    r = first_render(case, impl)
     if (r.get("r") == "ok" and r.get("out")) or (r.get("r") == "rerr" and r.get("reason") != "TemplateNotFound"):
         return case["id"]
     return None
@@ -126,5 +145,5 @@ def nontrivial_key(case, meta, impl):
 def outcome_kind(case, meta, impl):
     if impl.get("r") != "session":
         return "none"
-    r = impl["results"][3]
+    r = first_render(case, impl)
     return "%s:%s" % (r.get("r"), r.get("reason", ""))
